@@ -371,7 +371,7 @@ Proof.
   unfold to_offline. destruct (k_wsem c);
     try (apply sat_bind_any; [apply tell_sat|]; intros _; apply sat_ret;
          apply txle_nil, txs_break_pending).
-  apply sat_ret, txle_refl.
+  apply sat_bind_any; [apply tell_sat|]. intros _. apply sat_ret, txle_eq. reflexivity.
 Qed.
 
 Lemma off_ret_tl {A} c c1 (r : A) :
